@@ -20,7 +20,8 @@ THEOREMS = ['Fsic.C11.' + n for n in [
     'interleaved_independent', 'interleaved_independent_ops', 'copy_resync_independent',
     'assignFrom_inplace_copies_values', 'failed_copy_is_identity', 'deepcopy_uncopyable', 'worldOK_after_copy',
     'successive_copies_disjoint', 'fresh_check_is_not_endogenous', 'copy_entry_aliasing_preserved',
-    'copy_entries_separate_linker', 'copy_succeeds', 'ranked_acyclic']]
+    'copy_entries_separate_linker', 'copy_succeeds', 'ranked_acyclic', 'siblings_disjoint_own_spans',
+    'siblings_share_callers_span']]
 RULE = ('programs over real fsic objects: a class (VectorContainer; parser-built / hand-written / default-inheriting '
         'BaseModel subclasses; BaseLinker subclasses with two nested submodels; with and without AliasMixin / '
         'TracerMixin, TRACE_VARIABLES None or a class-level list), two sibling instances over range / list spans, a '
@@ -119,6 +120,13 @@ def pristine_globals():
 
 # ---- program generation -------------------------------------------------------------------------------------------------
 
+INTERNAL_KEYS = ['submodels', 'span', 'index', 'names', 'name', 'lags', 'leads', 'check', 'endogenous', 'aliases',
+                 'preferred_names', 'dtype', 'engine', 'attributes', 'strict', 'status', 'iterations', 'trace']
+import keyword as _keyword   # noqa: E402
+RESERVED_NAMES = (set(dir(BaseLinker)) | set(dir(BaseModel)) | set(dir(AliasMixin)) | set(dir(TracerMixin))
+                  | set(_keyword.kwlist) | set(INTERNAL_KEYS) | {'UNDEF1', 'GDP', 'AL1', 'AL2', 'AA', 'TT', 'A0'})
+
+
 def gen_case(rng):
     kind = rng.choice(['container', 'model', 'model', 'model', 'linker'])
     classes = {}
@@ -141,6 +149,24 @@ def gen_case(rng):
     def fresh_name(prefix):
         counter[0] += 1
         return f'{prefix}{counter[0]}'
+
+    def attr_name(s_, prefix):
+        """Name of an ad hoc attribute: a fresh one, or one derived from the library's own `__dict__` keys (substrings,
+        also single letters) — copy() must carry an attribute over whatever it is called."""
+        used = s_.setdefault('attrnames', [])
+        if rng.random() < 0.4:
+            for _ in range(6):
+                key = rng.choice(INTERNAL_KEYS)
+                i = rng.randrange(len(key))
+                j = rng.randrange(i + 1, len(key) + 1)
+                cand = key[i:j]
+                if (cand.isidentifier() and not cand.startswith('_') and cand not in used and cand not in RESERVED_NAMES
+                        and cand not in s_['vars'] and cand not in s_.get('akeys', [])):
+                    used.append(cand)
+                    return cand
+        x_ = fresh_name(prefix)
+        used.append(x_)
+        return x_
 
     def names_of(spec):
         cls = build_class(spec, 'tmp')
@@ -328,11 +354,11 @@ def gen_case(rng):
             s.setdefault('vdtype', {})[x] = op_.get('dtype', 'float' if s['kind'] == 'container' else s.get('dtype0', 'float'))
             return op_
         if o == 'addAttrList':
-            x = fresh_name('lst')
+            x = attr_name(s, 'lst')
             s['lists'].append([x])
             return {'o': 'addAttrList', 'x': x, 'items': [fresh_name('i') for _ in range(rng.randrange(3))]}
         if o == 'addAttrImm':
-            return {'o': 'addAttrImm', 'x': fresh_name('att'), 'v': rng.choice([1, 'txt', None]),
+            return {'o': 'addAttrImm', 'x': attr_name(s, 'att'), 'v': rng.choice([1, 'txt', None]),
                     'via': rng.choice(['setattr', 'add_attribute'])}
         if o == 'setAttrImm':
             if s['kind'] != 'container':
@@ -798,6 +824,30 @@ def mirror_mutations(rep, case, what, a, b):
     return n
 
 
+def perturb_settings(x):
+    """Every immutable setting of the object AND of its submodels is changed from its constructor-derived value
+    (lags, leads, strict, other int / bool attributes) — a copy must carry the current settings, not re-derive them."""
+    done = 0
+    targets = [x] + (list(x.submodels.values()) if isinstance(x, BaseLinker) else [])
+    for t in targets:
+        for k in list(t.__dict__.get('_attributes', [])):
+            v = t.__dict__.get(k)
+            if isinstance(v, bool) or k in ('span', 'index', '_attributes', 'dtype', 'engine'):
+                continue
+            if isinstance(v, int):
+                try:
+                    setattr(t, k, v + 3)
+                    done += 1
+                except Exception:   # noqa: BLE001
+                    pass
+        try:
+            t.strict = not t.strict
+            done += 1
+        except Exception:   # noqa: BLE001
+            pass
+    return done
+
+
 def alias_edit_history(x):
     """Names are used once (failed look-ups included), THEN the instance's `aliases` are re-pointed / extended /
     reduced at run time."""
@@ -1071,6 +1121,19 @@ def oracle_(rep, case, prep=None, forms=None):
             evaluations += behaviour_equal(rep, case, f'{route}({src})', o2, c2)
             o4, c4 = rebuild()
             evaluations += mirror_mutations(rep, case, f'{route}({src})', o4, c4)
+            w5 = world()
+            o5 = w5.roots[src]
+            if perturb_settings(o5):
+                c5 = hc.COPY_ROUTES[route](o5)
+                evaluations += 1
+                sa_, sb_ = hc.observe(o5), hc.observe(c5)
+                if sa_ != sb_:
+                    fields = sorted({top_field(p_) for p_ in hc.diff_paths(sa_, sb_)})
+                    violate(rep, 'copy-not-equal-after-settings-changed:' + ','.join(fields),
+                            f'{route}({src}): after every int / bool setting of the object and its submodels was changed '
+                            f'(lags, leads, strict, …) the copy differs from the original in {fields}',
+                            dict(case, behaviour=[f'{route}({src})', 'settings']))
+                evaluations += behaviour_equal(rep, case, f'{route}({src})', o5, c5, history='settings changed')
             w3 = world()
             o3 = w3.roots[src]
             targets = [o3] + (list(o3.submodels.values()) if isinstance(o3, BaseLinker) else [])
@@ -1215,6 +1278,8 @@ def run(ctx, rep):
                         nm_ = inner['x']
                         rep.dist['variable-name:' + ('underscore-twin' if nm_.startswith('_') else 'plain'
                                                      if nm_.startswith('V') and nm_[1:].isdigit() else 'member-like')] += 1
+                    if inner['o'] in ('addAttrImm', 'addAttrList') and not inner['x'][-1].isdigit():
+                        rep.dist['attribute-name:substring-of-a-library-key'] += 1
                     if inner['o'] == 'useName':
                         rep.dist['use-name:' + inner['how']] += 1
                     if inner.get('edit'):
@@ -1293,6 +1358,24 @@ def fixed_scenarios(ctx, rep):
     fixed_scenarios_(ctx, rep, batch)
     if not ctx.oracle_only and batch:
         compare_T(ctx, rep, batch)
+
+
+def derived_attr_names(exclude=()):
+    """Every identifier that is a substring of one of the library's own `__dict__` keys (and is not itself reserved)."""
+    out = []
+    for key in INTERNAL_KEYS:
+        for i in range(len(key)):
+            for j in range(i + 1, len(key) + 1):
+                c = key[i:j]
+                if c.isidentifier() and not c.startswith('_') and c not in RESERVED_NAMES and c not in exclude \
+                        and c not in out:
+                    out.append(c)
+    return out
+
+
+def derived_attr_cmds(r, exclude=()):
+    return [{'c': 'op', 'r': r, 'op': {'o': 'addAttrImm', 'x': x, 'v': i % 7, 'via': 'add_attribute'}}
+            for i, x in enumerate(derived_attr_names(exclude))]
 
 
 def nested_attr_cmds(r):
@@ -1465,6 +1548,8 @@ def fixed_scenarios_(ctx, rep, batch):
                     spec['preferred'] = ['AA']
                 prog.append({'c': 'op', 'r': 'a', 'op': {'o': 'addAttrList', 'x': 'lstA', 'items': ['u']}})
                 prog += nested_attr_cmds('a')
+                if not alias and not tracer:   # once per kind of class
+                    prog += derived_attr_cmds('a', exclude=set(names) if style != 'container' else ())
                 prog.append({'c': 'copy', 'r': 'c0', 'of': 'a', 'route': 'method'})
                 prog.append({'c': 'snap', 'roots': ['a', 'b', 'c0', cname]})
                 case = {'classes': {cname: spec}, 'prog': prog, 'roots': ['a', 'b', 'c0'], 'ncopies': 1}
@@ -1483,7 +1568,7 @@ def fixed_scenarios_(ctx, rep, batch):
                     {'c': 'new', 'r': 'l', 'cls': 'L', 'span': {'range': 3}, 'sub': 'd'},
                     {'c': 'op', 'r': 'l', 'op': {'o': 'inSub', 'key': 'A', 'op': {'o': 'addVariable', 'x': 'V9', 'n': 3,
                                                                                        'model': True}}},
-                    ] + nested_attr_cmds('l') + nested_attr_cmds('a') + [
+                    ] + nested_attr_cmds('l') + nested_attr_cmds('a') + derived_attr_cmds('l', exclude={'T', 'W'}) + [
                     {'c': 'copy', 'r': 'c0', 'of': 'l', 'route': 'copy.deepcopy'},
                     {'c': 'snap', 'roots': ['l', 'c0', 'M', 'L']}]
             case = {'classes': classes, 'prog': prog, 'roots': ['a', 'b', 'l', 'c0'], 'ncopies': 1}
